@@ -195,7 +195,9 @@ def r3_line_grammar(ctx: Ctx) -> None:
         shape_ok = "=" in lits and len(groups) == 3
     ctx.check(shape_ok, "table_line_regex:shape", f"HEX [':' HEX] '=' TEXT; pattern {pat!r}")
     pl = ctx.repo.func(SCRIPT, "Table.parse_table_line")
-    txt = unparse(pl.node)
+    import re as _re18b
+
+    txt = _re18b.sub(r"\b(\w+)\['(\w+)'\]", r"\1.group('\2')", unparse(pl.node))  # Match.__getitem__ is Match.group
     ctx.check("matches.group('byte')" in txt and "matches.group('text')" in txt and "self.add_lookup(text, byte)" in txt, "Table.parse_table_line", "text -> code entry is recorded from the named groups")
     ctx.check("self.add_inverted_lookup(byte, text" in txt, "Table.parse_table_line:inverse", "code -> text entry is recorded too")
     # every matched line yields a text -> code entry: the add_lookup call depends on the line having matched, on nothing else
